@@ -19,6 +19,7 @@ type SpecDB struct {
 	Contracts   map[string]*Contract
 	SpecFuncs   map[string]*SpecFunc
 	Lemmas      []*Lemma
+	Axioms      []*Lemma // assumed ground facts (each is checked against the real code by the conformance tests)
 	GhostVars   map[string]*GhostVar
 	GhostFields map[string]*GhostField // key: Owner + "." + Name
 	Errors      []string
@@ -224,6 +225,9 @@ func (db *SpecDB) LoadFile(path, pkgPath, prefix string) {
 			}
 			if kw == "axiom" {
 				lm.Name = "axiom:" + lm.Name
+				db.Axioms = append(db.Axioms, lm)
+				cur = nil
+				continue
 			}
 			db.Lemmas = append(db.Lemmas, lm)
 			cur = nil
@@ -307,6 +311,8 @@ func (db *SpecDB) LoadFile(path, pkgPath, prefix string) {
 			case "modifies":
 				if strings.TrimSpace(rest) == "*" {
 					cur.ModAll = true
+				} else if strings.TrimSpace(rest) == "heap" {
+					cur.ModHeap = true
 				} else if strings.TrimSpace(rest) != "nothing" {
 					for _, l := range splitTop(rest, ',') {
 						cur.Modifies = append(cur.Modifies, strings.TrimSpace(l))
